@@ -1179,8 +1179,39 @@ fn host4(vm: &mut Vm<()>, a: Value, b: Value, c: Value, d: Value) -> Result<Valu
 
 /// kind 4: `t.k1 = 1; ..; t.k14 = 14` with new string keys, read back, under a memory limit that places the collections
 /// differently for every ops[0].1; kinds 5-8: `g = hostN(mk(), .., mk())` -- N temporaries as arguments of a host function
+/// kind 9: a host function asks a script function for a closure, guards it (nothing else refers to it), collects and
+/// allocates, then calls the closure: the variable the closure captured lives in an upvalue object only the guarded
+/// closure refers to -- what a protected object refers to must survive
+fn host_call_later(vm: &mut Vm<()>, factory: Value) -> Result<Value, ExecutionErrorPayload> {
+    let closure = vm.run_function(factory)?;
+    let Value::Object(o) = closure else { return Err(ExecutionErrorPayload::invalid_argument("expected a closure")); };
+    let _guard = cao_lang::vm::runtime::cao_lang_object::ObjectGcGuard::new(o);
+    vm.runtime_data.gc();
+    for _ in 0..16 { vm.init_string("eeyore")?; }
+    vm.run_function(closure)
+}
+
 fn operand_rooting_scenario2(ops: &[Op]) {
-    let kind = ops[0].0 % 9;
+    let kind = ops[0].0 % 10;
+    if kind == 9 {
+        let module = Module {
+            functions: vec![
+                ("createClosure".to_string(), Function::default()
+                    .with_card(Card::set_var("result", Card::string_card("winnie the pooh")))
+                    .with_card(Card::return_card(CardBody::Closure(Box::new(Function::default().with_card(Card::return_card(Card::read_var("result")))))))),
+                ("main".to_string(), Function::default().with_card(Card::set_global_var("g_result", Card::call_native("call_later", vec![Card::function_value("createClosure")])))),
+            ],
+            ..Default::default()
+        };
+        let program = compile(module, None).unwrap();
+        let mut vm = Vm::new(()).unwrap();
+        vm.register_native_function("call_later", into_f1(host_call_later)).unwrap();
+        let r = vm.run(&program);
+        let got = vm.read_var_by_name("g_result", &program.variables).and_then(|v| unsafe { v.as_str() }.map(|s| s.to_string()));
+        println!("CHILD finished: {:?}, g_result = {got:?}", r.as_ref().map(|_| ()).map_err(|e| &e.payload));
+        if got.as_deref() != Some("winnie the pooh") { std::process::exit(3); }
+        return;
+    }
     let text = "a string value that is long enough to matter";
     if kind == 4 {
         let fields = 14;
@@ -1238,8 +1269,8 @@ fn operand_rooting_scenario2(ops: &[Op]) {
 }
 
 fn operand_rooting_scenario(ops: &[Op]) {
-    if ops[0].0 % 9 >= 4 { operand_rooting_scenario2(ops); return; }
-    let kind = ops[0].0 % 9;
+    if ops[0].0 % 10 >= 4 { operand_rooting_scenario2(ops); return; }
+    let kind = ops[0].0 % 10;
     let n = 1000 + (ops[0].1 % 8) as i64 * 500;
     let text = "a string value that is long enough to matter";
     let body: Card = match kind {
@@ -1280,12 +1311,13 @@ fn operand_rooting_scenario(ops: &[Op]) {
 fn run_operand_rooting(ops: &[Op]) {
     if std::env::var("CAO_REPLAY_CHILD").is_ok() { operand_rooting_scenario(ops); return; }
     if let Some(what) = run_child("operand_rooting", ops) {
-        if ops[0].0 % 9 == 4 { fail("operand_rooting", ops, 0, format!("main {{ t = {{}}; t.k1 = 1; .. t.k14 = 14; (8 more strings); r1 = t.k1; .. }} under memory limits {}..{} (every placement of the collections): {what}", 64 + (ops[0].1 % 16) * 1500, 64 + (ops[0].1 % 16) * 1500 + 1500)); }
-        if ops[0].0 % 9 >= 5 { let a = ops[0].0 % 9 - 4; fail("operand_rooting", ops, 0, format!("main {{ repeat {{ g = host{a}(mk(), ..) }} }}: a host function of arity {a} (registered with into_f{a}; it allocates 40 tables, then counts the strings in its arguments) called on temporaries on a 96 KiB heap: {what}")); }
+        if ops[0].0 % 10 == 4 { fail("operand_rooting", ops, 0, format!("main {{ t = {{}}; t.k1 = 1; .. t.k14 = 14; (8 more strings); r1 = t.k1; .. }} under memory limits {}..{} (every placement of the collections): {what}", 64 + (ops[0].1 % 16) * 1500, 64 + (ops[0].1 % 16) * 1500 + 1500)); }
+        if ops[0].0 % 10 == 9 { fail("operand_rooting", ops, 0, format!("a host function gets a closure from a script function (run_function), guards it with an ObjectGcGuard, collects, allocates 16 strings and calls the closure, which returns the variable it captured: {what} (what a protected object refers to must survive)")); }
+        if ops[0].0 % 10 >= 5 { let a = ops[0].0 % 10 - 4; fail("operand_rooting", ops, 0, format!("main {{ repeat {{ g = host{a}(mk(), ..) }} }}: a host function of arity {a} (registered with into_f{a}; it allocates 40 tables, then counts the strings in its arguments) called on temporaries on a 96 KiB heap: {what}")); }
         let n = 1000 + (ops[0].1 % 8) * 500;
         let prog = [format!("t = {{}}; repeat {n} {{ append(t, \"<string literal>\") }}"), format!("t = {{}}; repeat {n} i {{ t[i] = \"<string literal>\" }}"),
                     format!("repeat {n} {{ g = nth_row(mk(), 1) }} on a 64 KiB heap, mk() returning a new table of 12 strings"),
-                    format!("repeat {n} {{ g = __to_array(mk()) }} (a native function called on a temporary) on a 64 KiB heap, mk() returning a new table of 12 strings")][(ops[0].0 % 9) as usize].clone();
+                    format!("repeat {n} {{ g = __to_array(mk()) }} (a native function called on a temporary) on a 64 KiB heap, mk() returning a new table of 12 strings")][(ops[0].0 % 10) as usize].clone();
         fail("operand_rooting", ops, 0, format!("main {{ {prog} }}: {what}"));
     }
 }
@@ -1410,7 +1442,7 @@ fn main() {
         // each shape spawns a child process
         for kind in 0..4u8 { for n in [2u64, 4] { dispatch(unit, &[(kind, n, 0)], 0); } }
         for w in 0..16u64 { dispatch(unit, &[(4, w, 0)], 0); }
-        for kind in 5..9u8 { dispatch(unit, &[(kind, 2, 0)], 0); }
+        for kind in 5..10u8 { dispatch(unit, &[(kind, 2, 0)], 0); }
         println!("OK table instructions kept their operands alive while tables grew");
         return;
     }
